@@ -220,21 +220,99 @@ void vf_harness()
                 canaries=[{"fn": "MatrixSquareSymmetric::normMatrix", "rx": r"for \(int icol = 0; icol <= irow; icol\+\+\)", "rp": "for (int icol = 0; icol < irow; icol++)", "expect": r"assertion"}])
 
 
+BOOL = "typedef _Bool bool;\n#define true 1\n#define false 0\n"
+
+
+def AND(xs):
+    xs = list(xs)
+    return "(" + " && ".join(xs) + ")" if xs else "1"
+
+
+def unit_where(which, nmax=6):
+    """VH::whereMinimum / VH::whereMaximum (Route C, loop closed by invariant): the rank returned is a defined element that bounds every defined element."""
+    mn = which == "Minimum"
+    VHC = "src/Basic/VectorHelper.cpp"
+    cname = "VH_where" + which
+    LE = (lambda a, b: "%s <= %s" % (a, b)) if mn else (lambda a, b: "%s >= %s" % (a, b))
+    init = "1.e30" if mn else "-1.e30"
+    pre = BOOL + """
+#define NMAX %d
+#define FFFF_(v) ((v) > 1.0e30 || (v) != (v))
+static bool FFFF(double v) { return FFFF_(v); }
+""" % nmax
+    D = lambda k: "!FFFF_(W_tab[%s])" % k
+    contract = "\n".join([
+        "__CPROVER_requires(0 <= tab_size && tab_size <= NMAX && tab == W_tab)",
+        # defined values lie in the representable domain of the library: |v| <= 1e30 (above: undefined by convention)
+        "__CPROVER_requires(%s)" % AND("(FFFF_(W_tab[%d]) || (-1.0e30 <= W_tab[%d] && W_tab[%d] <= 1.0e30))" % (k, k, k) for k in range(nmax)),
+        "__CPROVER_assigns()",
+        "__CPROVER_ensures(-1 <= __CPROVER_return_value && __CPROVER_return_value < tab_size)",
+        # -1 iff no defined element
+        "__CPROVER_ensures(__CPROVER_return_value != -1 || %s)" % AND("(%d >= tab_size || FFFF_(W_tab[%d]))" % (k, k) for k in range(nmax)),
+        # otherwise: a defined element that is the extremum of the defined elements
+        "__CPROVER_ensures(__CPROVER_return_value < 0 || !FFFF_(W_tab[__CPROVER_return_value]))",
+        "__CPROVER_ensures(__CPROVER_return_value < 0 || %s)" % AND("(%d >= tab_size || FFFF_(W_tab[%d]) || %s)" % (k, k, LE("W_tab[__CPROVER_return_value]", "W_tab[%d]" % k)) for k in range(nmax)),
+    ])
+    loop = "\n".join([
+        "__CPROVER_assigns(i, vbest, ibest)",
+        "__CPROVER_loop_invariant(0 <= i && i <= ntab && ntab == tab_size && -1 <= ibest && ibest < i)",
+        "__CPROVER_loop_invariant(ibest >= 0 || (vbest == %s && %s))" % (init, AND("(%d >= i || FFFF_(W_tab[%d]))" % (k, k) for k in range(nmax))),
+        "__CPROVER_loop_invariant(ibest < 0 || (!FFFF_(W_tab[ibest]) && vbest == W_tab[ibest]))",
+        "__CPROVER_loop_invariant(%s)" % AND("(%d >= i || FFFF_(W_tab[%d]) || %s)" % (k, k, LE("vbest", "W_tab[%d]" % k)) for k in range(nmax)),
+        "__CPROVER_decreases(ntab - i)",
+    ])
+    f = Fn("VectorHelper::where" + which, VHC, r"^int VectorHelper::where%s\(const VectorDouble& tab\)\s*$" % which,
+           csig="int %s(const double* tab, int tab_size)" % cname, contract=contract, loops={1: loop}, nloops=1,
+           rewrites=[(r"\(int\) tab\.size\(\)", "tab_size", 1)])
+    h = """
+void vf_harness(void)
+{
+  vf_havoc_inputs();
+  %s(W_tab, W_n);
+  VF_REACH();
+}
+""" % cname
+    native = r"""
+static void vf_native(void)
+{
+  if (!(0 <= W_n && W_n <= NMAX)) exit(77);
+  for (int k = 0; k < NMAX; k++) if (!(FFFF(W_tab[k]) || (-1.0e30 <= W_tab[k] && W_tab[k] <= 1.0e30))) exit(77);
+  int r = %s(W_tab, W_n);
+  int ndef = 0;
+  for (int k = 0; k < W_n; k++) if (!FFFF(W_tab[k])) ndef++;
+  __CPROVER_assert((r == -1) == (ndef == 0), "rank -1 exactly when no element is defined");
+  if (r >= 0) { __CPROVER_assert(r < W_n && !FFFF(W_tab[r]), "the rank designates a defined element");
+    for (int k = 0; k < W_n; k++) if (!FFFF(W_tab[k])) __CPROVER_assert(%s, "the element returned bounds every defined element"); }
+}
+""" % (cname, LE("W_tab[r]", "W_tab[k]"))
+    canary = ({"fn": f.name, "rx": r"if \(tab\[i\] > vbest\) continue;", "rp": "if (tab[i] < vbest) continue;"} if mn else
+              {"fn": f.name, "rx": r"if \(tab\[i\] < vbest\) continue;", "rp": "if (tab[i] > vbest) continue;"})
+    canary["expect"] = r"%s\.(postcondition|loop_invariant_step)" % cname
+    return Unit("C11.VH.where" + which, [f], prelude=pre, harness=h, native=native, pre_inputs=BOOL, defines={"NMAX": nmax},
+                inputs=[("double", "W_tab", "NMAX"), ("int", "W_n")], enforce=cname, backends=("minisat", "cadical"), timeout=600, fallback_unwind=nmax + 2,
+                claim=("VH::where%s returns -1 exactly when the vector has no defined element, otherwise the rank of a defined element that is %s "
+                       "every defined element (undefined = NaN or > 1e30 are skipped); nothing written; loop closed by invariant (length <= %d)"
+                       % (which, "<=" if mn else ">=", nmax)),
+                assumptions=["at most %d elements (quantifier range)" % nmax, "defined values lie in [-1e30, 1e30] (the library's sentinel domain)",
+                             "const VectorDouble& -> (const double*, int)"],
+                canaries=[canary])
+
+
 def units(tier):
-    return [unit_dense_dims(), unit_sparse_dims(), unit_normmatrix()]
+    return [unit_dense_dims(), unit_sparse_dims(), unit_normmatrix(), unit_where("Minimum"), unit_where("Maximum")]
 
 
 META = {
     "level": "other",
-    "explanation": "(the two dimension units are unbounded proofs, normMatrix.terms is a bounded stand-in, hence level 'other') Shape/index contracts of the Eigen-backed dense kernels and sparse product kernels for every shape; numerical values, sparse storage, decompositions and thread-count independence are not decidable here.",
+    "explanation": "(the two dimension units and the two VH::whereMinimum/whereMaximum units are unbounded proofs, normMatrix.terms is a bounded stand-in, hence level 'other') Shape/index contracts of the Eigen-backed dense kernels and sparse product kernels for every shape; extremum-rank contracts of VH::whereMinimum / whereMaximum (loop invariant); numerical values, sparse storage, decompositions and thread-count independence are not decidable here.",
     "trusted_base": ["CBMC 6.11 C++ front end", "Eigen (numerics)", "stub classes"],
     "assumptions": [],
     "not_covered": ["values computed by Eigen/csparse", "csparse storage of MatrixSparse and its non-product methods", "Cholesky / eigen-decomposition", "thread-count independence (no thread model)",
-                    "generic AMatrix fallbacks and VectorHelper reductions (planned, not built)"],
+                    "generic AMatrix fallbacks and the other VectorHelper reductions (sum, mean, norm, ...: floating-point sums, not built)"],
 }
 MANIFEST = {
     "category": "other",
-    "text": "Dimension-typing contracts on the Eigen-backed kernels of AMatrixDense (18 methods) and on the Eigen-storage product kernels of MatrixSparse (9 methods): loop-free, hence for every matrix shape and both transposition flags (proved); bounded (3x3) term-coverage unit on the generic congruence product normMatrix; values are not claimed.",
+    "text": "Dimension-typing contracts on the Eigen-backed kernels of AMatrixDense (18 methods) and on the Eigen-storage product kernels of MatrixSparse (9 methods): loop-free, hence for every matrix shape and both transposition flags (proved); bounded (3x3) term-coverage unit on the generic congruence product normMatrix; VH::whereMinimum / whereMaximum return the rank of the extremum of the defined elements (loop invariant, proved); other values are not claimed.",
     "note": "Trusted: Eigen preconditions as documented; numerical results N/A.",
     "design_ref": "DESIGN.md 3 C11",
 }
